@@ -78,8 +78,15 @@ def _cache_sc(rng, n_old, add, remove, pad, stale=False, session="same"):
             "session": session, "seed": rng.randrange(1 << 30)}
 
 
+def _migrate_sc(rng, size, name):
+    return {"kind": "migrate", "size": size, "name": name, "seed": rng.randrange(1 << 30)}
+
+
 def scenarios(tier, rng):
     out = []
+    # the project-document write of the schema migration v1 -> v2 (the project name moves into the document)
+    out.append(_migrate_sc(rng, "small", "my project"))
+    out.append(_migrate_sc(rng, "big", "p"))
     # job documents: every size class, the first few with fixed ops so each op occurs
     out.append(_doc_sc(rng, "jobdoc", "absent", "setitem"))
     out.append(_doc_sc(rng, "jobdoc", "empty", "update"))
@@ -236,9 +243,36 @@ def build(sc, d, mutant=None):
     rng = random.Random(sc["seed"])
     b = Built()
     b.targets, b.api = [], []
-    proj = signac.init_project(d)
     rel = lambda p: os.path.relpath(p, d).replace(os.sep, "/")  # noqa: E731
     kind = sc["kind"]
+    if kind == "migrate":
+        # a schema-version-1 project written by hand: signac.rc with a project name, a populated project document
+        with open(os.path.join(d, "signac.rc"), "w") as f:
+            f.write("project = %s\nschema_version = 1\n" % sc["name"])
+        os.makedirs(os.path.join(d, "workspace"))
+        fn_doc = os.path.join(d, signac.Project.FN_DOCUMENT)
+        old = make_doc(random.Random(sc["seed"]), sc["size"])
+        _write_json(fn_doc, old)
+        want = dict(old)
+        want["signac_project_name"] = sc["name"]
+        b.targets.append({"path": rel(fn_doc), "fmt": "json", "old": old, "want": want})
+
+        def raw_doc():
+            with open(fn_doc) as f:
+                return json.load(f)
+        b.api.append(raw_doc)
+
+        def migrate():
+            import contextlib
+            import io
+            from signac.migration import apply_migrations
+            with contextlib.redirect_stdout(io.StringIO()), contextlib.redirect_stderr(io.StringIO()):
+                apply_migrations(d)
+        b.fn = migrate
+        if mutant:
+            b.fn = _mutated(b.fn, mutant)
+        return b
+    proj = signac.init_project(d)
 
     def add_doc(dsc, holder, fn_doc, reader, owner=None):
         r = random.Random(dsc["seed"])
@@ -554,9 +588,10 @@ def _run(case, sc, d):
     own_tmp = {s.path for s in steps if s.kind == "create" and s.ok and s.path not in tpaths
                and any(os.path.dirname(s.path) == os.path.dirname(p) for p in tpaths)}
     left = [names.get(fsx_canon(r), fsx_canon(r)) for r, _ in snap.diff(fsx.TreeSnapshot(d)) if r not in tpaths]
-    if [r for r in left if r not in own_tmp]:
+    other_ok = sc["kind"] == "migrate"   # a migration legitimately moves the configuration and cache files
+    if not other_ok and [r for r in left if r not in own_tmp]:
         oracle.append("completed write changed other paths: %s" % [r for r in left if r not in own_tmp][:3])
-    if [r for r in left if r not in snap.entries]:
+    if not other_ok and [r for r in left if r not in snap.entries]:
         oracle.append("completed write left a temporary file behind: %s" % [r for r in left if r not in snap.entries][:3])
     snap.restore()
     if not steps:
@@ -592,6 +627,10 @@ def _run(case, sc, d):
         points = [pt for i, pt in enumerate(all_points) if i % part[2] == part[1]]
     else:
         points = []
+    if sc["kind"] == "migrate":
+        # only the document write is under test: crash points up to the step after the last one that touches it
+        last = max([i for i, s_ in enumerate(steps) if any(x in tpaths for x in (s_.path, s_.path2) if x)] or [0])
+        points = [(k, p) for k, p in points if k <= last + 1]
     for k, p in points:
         r = fsx.fork_run(b.fn, d, crash_at=k, torn=p)
         where = "crash before step %d%s (%s)" % (k, " after %d of %d bytes" % (p, steps[k].n) if p else "",
@@ -610,11 +649,13 @@ def _run(case, sc, d):
                 oracle.append("%s: %s is neither the old nor the new content (%s)" % (
                     where, t["path"], err or ("absent" if v == ABSENT else "parses to something else")))
         diff = [rn.get(fsx_canon(r_), fsx_canon(r_)) for r_, _ in snap.diff(fsx.TreeSnapshot(d)) if r_ not in tpaths]
+        if sc["kind"] == "migrate":  # the migration lock file is created outside the traced primitives
+            diff = [r_ for r_ in diff if os.path.basename(r_) != ".SIGNAC_PROJECT_MIGRATION_LOCK"]
         tdirs = {os.path.dirname(p_) for p_ in tpaths}
         bad = [r_ for r_ in diff if r_ not in own_tmp and not (r_ not in snap.entries and os.path.dirname(r_) in tdirs)]
-        if bad:
+        if bad and not other_ok:
             oracle.append("%s: paths other than the target and its temp file changed: %s" % (where, bad[:3]))
-        if len(diff) > 1:
+        if len(diff) > 1 and not other_ok:
             oracle.append("%s: more than one stray file: %s" % (where, diff[:4]))
         mk, mp = wire.point(k, p)
         model.append("crash %d %d %s | %s | %s" % (mk, mp, T, init, wire.text))
